@@ -8,6 +8,13 @@ def hook_commits():
     return [l.split()[0] for l in out.splitlines() if "verif hook" in l]
 
 CLAIMED = {
+ "C06": dict(
+   level="exploration",
+   text="Seeded histories; the block at a seeded position is edited (10 edits: reorder/replace/add/remove/duplicate transactions or change a payload under the unchanged signed header; re-sign with another key; change creator/timestamp/treasury without re-signing), the edited block goes to node A and the original to node B through the decode+generate path, then the rest of the history to both. Oracles: same hash + different ordered transaction list is never accepted; header edits change the hash or are rejected (and never accepted under a new hash without a valid creator signature); same tip hash on two nodes implies identical spendable sets.",
+   design="§6 C06",
+   note="Trusted: edit catalogue and the comparison of ordered transaction lists; universe builder for the honest history.",
+   technique="deterministic simulation: two-node history replay with post-signing block edits, same-hash/same-ledger oracle"),
+
  "C13": dict(
    level="exploration",
    text="Seeded histories of 2-4 retention windows on a real producer (genesis period 3..8) with spent/unspent/dust outputs and three fee levels; for every accepted block past the first window its rebroadcast transactions are matched one-to-one against the reference ledger's unspent outputs of the block that just left the window (identity, owner, amount bounds, nothing foreign, nothing twice) and value conservation across the edge is checked in u128; outputs older than the window are then offered as inputs through the pool and inside a block.",
